@@ -1,9 +1,13 @@
 """C03 — a gated memory cell latches the written value and holds it."""
 from bounded import gen
-from bounded.run_memory import run_history_scope
+from bounded.run_memory import run_template_scope, run_history_scope
 from checks.common import CheckRun
 
 EXPLANATION = (
+    "Template lemmas (per program of the enumerated scope, decided by SMT for ALL data values, thresholds and input "
+    "histories): for the blueprint the real pipeline emits, from every settled state and after any single-input change the "
+    "circuit is settled again within K ticks and every reader shows S3's next state (step), the same from the all-zero "
+    "state (base), and a settled state exists (cover) — resp. reader(step^L(s)) == f(reader(s)) for every state (C04). "
     "P tier (unbounded): on the real MemoryLowerer._lower_standard_write, on every path, the write enable handed to the IR is "
     "on the reserved signal-W (decider retyped in place, +0 projection, or the constant 1), with the expression lowerer and "
     "the IR builder used by contract. B tier (bounded, never counted as proved): programs with standard (when=) cells — enable given as comparison, named "
@@ -25,4 +29,8 @@ def run(tier):
         cr.bounded_check(run_history_scope, f"gated-cells-{'opt' if optimize else 'noopt'}", progs,
                          f"{len(progs)} programs x input histories of {length} single-input changes (<= {limit} per program); optimize={optimize}",
                          cr.known, length=length, limit=limit, optimize=optimize)
+    for optimize in (True, False):
+        cr.bounded_check(run_template_scope, f"template-lemmas-{'opt' if optimize else 'noopt'}", "history", progs,
+                         f"{len(progs)} programs: cover + base + step lemmas (history) / round-trip lemma (iteration) by SMT over the S2 tick function; optimize={optimize}",
+                         cr.known, optimize=optimize)
     return cr.finish()
